@@ -40,14 +40,26 @@ def render_module(root: Path, tasks: list[dict], version: int) -> str:
             kw.append("after=[" + ", ".join(f"task_t{u}_" for u in t["after_fn"]) + "]")
         elif t.get("after_expr") is not None:
             kw.append(f"after={t['after_expr']!r}")
+        opt = t.get("opt") or []
+        if opt:
+            # dependencies that are part of the task only while a flag file exists when the module is imported:
+            # the set of dependencies changes although the source of the module does not
+            # (all file dependencies of such a task come through one list, which is never empty: an empty container
+            # would be collected as a PythonNode of its own)
+            static = [d for d in t["deps"] if d not in opt and not 200 <= d < 400]
+            lines.append(f"_OPT{t['id']} = [ROOT / f'f{{d}}.txt' for d in {static!r}] + "
+                         f"([ROOT / f'f{{d}}.txt' for d in {sorted(opt)!r}] if (ROOT / 'opt{t['id']}.flag').exists() else [])")
+            kw.append(f"kwargs={{'opt': _OPT{t['id']}}}")
         if kw or t.get("use_decorator"):
             decos.append("@task(" + ", ".join(kw) + ")")
-        args = [f"d{j}: Path = ROOT / 'f{d}.txt'" for j, d in enumerate(t["deps"]) if not 200 <= d < 400]
+        args = [f"d{j}: Path = ROOT / 'f{d}.txt'" for j, d in enumerate(t["deps"]) if not 200 <= d < 400 and not opt]
         # hashed Python inputs (node ids 200-299): a PythonNode around a list, no default -> first in the signature
         hargs = [f"pv{d}: Annotated[list, pytask.PythonNode(value=verif_rt.vt(ROOT, {d}), hash=True)]"
                  for d in t["deps"] if 200 <= d < 300]
         # values handed over in memory (node ids 300-399): module-level PythonNodes
         hargs += [f"m{d}: Annotated[int, M{d}]" for d in t["deps"] if 300 <= d < 400]
+        if opt:
+            hargs.append("opt")
         sp = t.get("spell", {})
         def _pp(p):
             v = sp.get(str(p))
@@ -66,7 +78,9 @@ def render_module(root: Path, tasks: list[dict], version: int) -> str:
         lines += decos
         ret = f" -> Annotated[int, M{memp[0]}]" if memp else ""
         lines.append(f"def task_t{t['id']}_({', '.join(args)}){ret}:")
-        dl = "[" + ", ".join((f"pv{d}" if 200 <= d < 300 else (f"m{d}" if 300 <= d < 400 else f"d{j}")) for j, d in enumerate(t["deps"])) + "]"
+        dl = "[" + ", ".join((f"pv{d}" if 200 <= d < 300 else (f"m{d}" if 300 <= d < 400 else f"d{j}")) for j, d in enumerate(t["deps"]) if not opt or 200 <= d < 400) + "]"
+        if opt:
+            dl += " + list(opt)"
         pl = "{" + ", ".join(f"{p}: p{j}" for j, p in enumerate(t["prods"]) if not 300 <= p < 400) + "}"
         lines.append(f"    return verif_rt.body(ROOT, {t['id']}, VERSION, {dl}, {pl}, mem={memp[0] if memp else None})")
         for a in t.get("attrs", []):
